@@ -1020,7 +1020,7 @@ pub fn scenario_shape(tier: &str, base_seed: u64, g: u64) -> Scenario {
             }
         }
     };
-    let classes = ["code", "code", "code+eeprom", "code+eeprom", "eeprom-only", "empty", "comments", "fail", "fail", "missing", "part-file", "part-file", "shadowed-part-file", "patterned-data", "no-ram-device", "local-include", "large", "large", "gen-any", "not-utf8", "source-is-directory", "no-source-option", "unknown-option", "in-standard-includes", "include-only-in-cwd-subdir", "panics-today"];
+    let classes = ["code", "code", "code+eeprom", "code+eeprom", "eeprom-only", "empty", "comments", "fail", "fail", "missing", "part-file", "part-file", "shadowed-part-file", "patterned-data", "no-ram-device", "local-include", "large", "large", "gen-any", "not-utf8", "source-is-directory", "no-source-option", "unknown-option", "in-standard-includes", "include-only-in-cwd-subdir", "panics-today", "deep-include-chain"];
     let mut class = classes[r.usize(classes.len())].to_string();
     if class == "in-standard-includes" && !(form == "bare" && !has_raw(stem)) {
         class = "code+eeprom".into(); // only a bare, plain name can be looked up there
@@ -1098,6 +1098,24 @@ pub fn scenario_shape(tier: &str, base_seed: u64, g: u64) -> Scenario {
                 }
             }
             Some(t)
+        }
+        // a chain of 100-140 include files next to the source: the library builds it (the
+        // reference runs on a 64 MiB stack), and so must the tool on its ordinary main thread - the
+        // unchanged tool manages 400 levels in 8 MiB, i.e. under 20 KiB of stack per level
+        "deep-include-chain" => {
+            let n = r.range(100, 140) as usize;
+            let pre = if srcdir.is_empty() { "".to_string() } else { format!("{}/", srcdir) };
+            for i in 1..=n {
+                let mut body = format!("    inc r{}\n", i % 16 + 1);
+                if i < n {
+                    body.push_str(&format!(".include \"c{:03}.inc\"\n", i + 1));
+                } else {
+                    body.push_str(".eseg\n.db 7, 8, 9\n.cseg\n");
+                }
+                body.push_str(&format!("    dec r{}\n", i % 16 + 1));
+                sc.files.insert(format!("{}c{:03}.inc", pre, i), body);
+            }
+            Some("    nop\n.include \"c001.inc\"\n    ret\n".to_string())
         }
         "local-include" => {
             let inc = format!("{}defs.inc", if srcdir.is_empty() { "".to_string() } else { format!("{}/", srcdir) });
@@ -1521,6 +1539,7 @@ fn account(acc: &mut Acc, sc: &Scenario, out: &RunOut, reference: &Reference, ro
     stats.probe("verbose_report_for_a_part_without_sram", sc.source_class == "no-ram-device" && parsed.verbose && built);
     stats.probe("source_given_is_a_symbolic_link", !sc.symlinks.is_empty() && built);
     stats.probe("source_missing", sc.source_class == "missing");
+    stats.probe("include_chain_of_100_or_more_files_built_by_the_tool", sc.source_class == "deep-include-chain" && built && out.status == Some(0));
     stats.probe("source_not_utf8_rejected", sc.source_class == "not-utf8" && !built);
     stats.probe("source_is_a_directory", sc.source_class == "source-is-directory");
     stats.probe("usage_error_rejected_visibly", parsed.unknown || parsed.source.is_none());
